@@ -398,7 +398,7 @@ def one_case(ctx, doc, col, ren, judge=True, judge_targets=True, model=True):
       state = '(mkState %s %s %s)' % (core.zlist(ids), enc_cols(sb, names),
                                      core.coq_list(['(%s, %s)' % (core.zlit(cr), enc_filter(txt)) for _, cr, txt in fb]))
       rens = core.coq_list(['(%s, %s)' % (core.strlit(k), core.strlit(v)) for k, v in ren])
-      coq = '(%s, %s, %s, %s, %s, %s, %s)' % (state, core.strlit(col), kind, core.boollit(c.is_formula()),
+      coq = '(mk_case %s %s %s %s %s %s %s)' % (state, core.strlit(col), kind, core.boollit(c.is_formula()),
                                               core.zlit(colrefs(e)[col]), rens, out)
   return coq, w, viol, changed, exc
 
@@ -447,7 +447,11 @@ def correspond(ctx):
   ctx.log('cases: %d' % len(coq))
   bad = ctx.run_cases('rename', ['Grist.Lib.PyVal', 'Grist.Model.Choices'],
                       "fun c => let '(st, cid, k, f, cr, ren, out) := c in outcome_eqb (rename_action st cid k f cr ren) out",
-                      coq, shard=60)
+                      coq, shard=60,
+                      # typed constructor: every component gets its type from here, so all-None / empty lists
+                      # inside a case never leave an implicit argument undetermined
+                      extra_defs='Definition mk_case (st : state) (cid : str) (k : ckind) (f : bool) (cr : Z) '
+                                 '(ren : renames) (out : result outcome) := (st, cid, k, f, cr, ren, out).')
   for i in bad[:5]:
     ctx.broken('correspondence:model rename_action differs from RenameChoices', 'case %r' % (info[i],))
 
